@@ -48,7 +48,7 @@ pub enum WireAns {
 }
 
 impl WireAns {
-    fn show(&self) -> String {
+    pub fn show(&self) -> String {
         match self {
             WireAns::Ok(a, l, r, rs, rt) => format!("ok,{},{l},{r},{rs},{rt}", *a as u8),
             WireAns::Err(_) => "err".into(),
